@@ -618,7 +618,15 @@ func init() {
 	runners["outfault"] = func(a []string) string {
 		return runOutboundFault(atoi(a[0]), atoi(a[1]), atoi(a[2]), int64(atoi(a[3])))
 	}
+	// outreal <streams> <messages each> <seed>: REAL library messages on several connections of one process
+	runners["outreal"] = func(a []string) string { return runOutboundReal(atoi(a[0]), atoi(a[1]), int64(atoi(a[2]))) }
 	families["C11"] = func(c *Ctx) {
+		for _, st := range []int{1, 2, 3, 8} {
+			line := fmt.Sprintf("outreal %d %d %d", st, 60, c.rng.Intn(1000)+1)
+			if c.only == nil || c.only["outreal"] {
+				c.emit(line, runIsolatedOnce(line))
+			}
+		}
 		// a write that times out after accepting part of a frame (1 byte, half, all but one), at the 1st..4th frame
 		for _, at := range []int{1, 2, 4} {
 			for _, acc := range []int{0, 1, 8, 15, 100} {
@@ -809,7 +817,15 @@ func init() {
 		}
 		return fmt.Sprintf("same %d", total)
 	}
+	// xtalk <seed> <programs>: no cross-talk between independent values through library state: every API program
+	// gives the same observation before and after the process parsed the traffic of a peer that leaves garbage in
+	// every padding field
+	runners["xtalk"] = func(a []string) string { return runXtalk(int64(atoi(a[0])), atoi(a[1])) }
 	families["C14"] = func(c *Ctx) {
+		if c.only == nil || c.only["xtalk"] {
+			line := fmt.Sprintf("xtalk %d %d", c.rng.Intn(100000), 1000000)
+			c.emit(line, runIsolatedOnce(line))
+		}
 		if c.only == nil || c.only["concdhcp"] {
 			line := "concdhcp 16 2000"
 			c.emit(line, runIsolatedOnce(line))
@@ -837,6 +853,55 @@ func init() {
 			}
 		}
 	}
+}
+
+func runXtalk(seed int64, n int) string {
+	ctx := &Ctx{rng: newRand(seed), tier: "quick", stats: map[string]int{}, iso: true}
+	for _, g := range ofGens {
+		g(ctx)
+	}
+	var progs []string
+	for _, l := range ctx.queue {
+		if strings.HasPrefix(l, "api ") {
+			progs = append(progs, strings.TrimPrefix(l, "api "))
+		}
+	}
+	if len(progs) > n {
+		progs = progs[:n]
+	}
+	obs := func(p string) string { return guard(func() string { return runProg(p) }) }
+	before := make([]string, len(progs))
+	for i, p := range progs {
+		before[i] = obs(p)
+	}
+	padByte = 0xa5
+	g := &swGen{r: newRand(seed + 1)}
+	var frames [][]byte
+	for k := 0; k < swKinds; k++ {
+		for i := 0; i < 8; i++ {
+			fr, _ := g.message(k)
+			frames = append(frames, fr)
+		}
+	}
+	padByte = 0
+	var keep []interface{}
+	for _, fr := range frames {
+		func() {
+			defer func() { recover() }()
+			m, _ := of.Parse(append([]byte(nil), fr...))
+			keep = append(keep, m)
+		}()
+	}
+	for i, p := range progs {
+		if after := obs(p); after != before[i] {
+			if len(p) > 400 {
+				p = p[:400] + "…"
+			}
+			return fmt.Sprintf("differ program %d gives another result after unrelated traffic was parsed: %s", i, p)
+		}
+	}
+	runtime.KeepAlive(keep)
+	return fmt.Sprintf("same %d", len(progs))
 }
 
 // concCases: encoder/builder cases from the OF generators (no decoders: those may spin on the pinned tree).
@@ -912,6 +977,127 @@ func runOutboundFault(n, failAt, accept int, seed int64) string {
 		return fmt.Sprintf("bad: the wire is not a prefix of the submitted frames (first difference at byte %d of %d written)", k, len(wire))
 	}
 	return "prefix ok"
+}
+
+// lateConn looks at the bytes it was handed only at the END of a slow Write (as a kernel copying from user memory under
+// back-pressure does): a sender that recycles the buffer before Write returns is exposed.
+type lateConn struct {
+	scriptConn
+	delay time.Duration
+}
+
+func (c *lateConn) Write(b []byte) (int, error) {
+	time.Sleep(c.delay)
+	runtime.Gosched()
+	c.mu.Lock()
+	defer c.mu.Unlock()
+	c.writes = append(c.writes, append([]byte(nil), b...))
+	return len(b), nil
+}
+
+// realMessage builds the k-th message stream s submits; equal arguments give equal, independent values
+func realMessage(s, k int, seed int64) util.Message {
+	tag := uint32(s+1)<<16 | uint32(k)
+	switch (k + s) % 4 {
+	case 0, 1:
+		po := of.NewPacketOut()
+		po.Xid = tag
+		po.InPort = uint32(s + 1)
+		po.AddAction(of.NewActionOutput(uint32(k + 1)))
+		n := 40 + int(uint32(k*53+s*17+int(seed))%900)
+		d := make([]byte, n)
+		for i := range d {
+			d[i] = byte(int(tag) + i*7)
+		}
+		po.Data = util.NewBuffer(d)
+		return po
+	case 2:
+		fm := of.NewFlowMod()
+		fm.Xid = tag
+		fm.Priority = uint16(k)
+		fm.Match.AddField(*of.NewInPortField(uint32(s + 1)))
+		in := of.NewInstrApplyActions()
+		in.AddAction(of.NewActionOutput(uint32(k+1)), false)
+		fm.AddInstruction(in)
+		return fm
+	default:
+		e := of.NewEchoRequest()
+		e.Xid = tag
+		return e
+	}
+}
+
+func runOutboundReal(nstreams, nmsg int, seed int64) string {
+	// what each connection must carry: the encodings of equal twin values, computed before any stream exists
+	want := make([][][]byte, nstreams)
+	for s := 0; s < nstreams; s++ {
+		for k := 0; k < nmsg; k++ {
+			b, err := realMessage(s, k, seed).MarshalBinary()
+			if err != nil {
+				return "bad: twin does not encode"
+			}
+			want[s] = append(want[s], append([]byte(nil), b...))
+		}
+	}
+	conns := make([]*lateConn, nstreams)
+	streams := make([]*util.MessageStream, nstreams)
+	for s := range conns {
+		conns[s] = &lateConn{scriptConn: scriptConn{done: make(chan struct{})}, delay: time.Duration(20+17*s) * time.Microsecond}
+		streams[s] = util.NewMessageStream(conns[s], &recParser{inFlight: map[*byte]bool{}})
+	}
+	var wg sync.WaitGroup
+	stuck := make(chan struct{})
+	for s := 0; s < nstreams; s++ {
+		wg.Add(1)
+		go func(s int) {
+			defer wg.Done()
+			for k := 0; k < nmsg; k++ {
+				select {
+				case streams[s].Outbound <- realMessage(s, k, seed):
+				case <-stuck:
+					return
+				}
+			}
+		}(s)
+	}
+	fin := make(chan struct{})
+	go func() { wg.Wait(); close(fin) }()
+	select {
+	case <-fin:
+	case <-time.After(5 * time.Second):
+		close(stuck)
+		return "timeout: producers blocked"
+	}
+	deadline := time.Now().Add(3 * time.Second)
+	for s := 0; s < nstreams; s++ {
+		for {
+			conns[s].mu.Lock()
+			n := len(conns[s].writes)
+			conns[s].mu.Unlock()
+			if n >= nmsg {
+				break
+			}
+			if time.Now().After(deadline) {
+				return fmt.Sprintf("bad: connection %d carried %d of %d messages", s, n, nmsg)
+			}
+			time.Sleep(200 * time.Microsecond)
+		}
+	}
+	for s := 0; s < nstreams; s++ {
+		streams[s].Shutdown <- true
+		conns[s].mu.Lock()
+		ws := conns[s].writes
+		conns[s].mu.Unlock()
+		if len(ws) != nmsg {
+			return fmt.Sprintf("bad: connection %d carried %d writes for %d messages", s, len(ws), nmsg)
+		}
+		for k, w := range ws {
+			if !bytes.Equal(w, want[s][k]) {
+				return fmt.Sprintf("bad: connection %d, message %d: the bytes on the wire are not the submitted message's encoding (%d bytes written, %d expected)", s, k, len(w), len(want[s][k]))
+			}
+		}
+	}
+	return fmt.Sprintf("ok %d", nstreams*nmsg)
 }
 
 func runOutbound(nprod, nmsg int, seed int64) string {
